@@ -486,7 +486,10 @@ func (o *ObjectSchema) Validate(data any) error {
 
 func (o *ObjectSchema) applySubObjectDefaultValues(propertyID string, property *PropertySchema, rawData map[string]any) {
 	reflectedType := property.ReflectedType()
-	if reflectedType.Kind() == reflect.Pointer {
+	if reflectedType.Kind() != reflect.Struct {
+		// Only a sub-object held by value in a struct field has to be materialised from its defaults.
+		// Pointers and map-based objects can simply stay absent - and a map-based object may refer to
+		// itself, which made this recursion endless (fatal stack overflow on Unserialize).
 		return
 	}
 	var subObject Object
